@@ -5,6 +5,7 @@ import (
 	"database/sql"
 	"strconv"
 	"strings"
+	"time"
 
 	"github.com/jdillenkofer/pithos/internal/checksumutils"
 	"github.com/jdillenkofer/pithos/internal/ptrutils"
@@ -363,6 +364,9 @@ func (sms *sqlMetadataStore) CompleteMultipartUpload(ctx context.Context, tx *sq
 		}
 	}
 
+	// The object comes into existence now, not when the upload was initiated:
+	// its creation time orders it among the key's versions.
+	objectEntity.CreatedAt = time.Now().UTC()
 	objectEntity.UploadStatus = object.UploadStatusCompleted
 	objectEntity.UploadId = nil
 	objectEntity.IsDeleteMarker = false
